@@ -39,6 +39,7 @@ def FA(vs, body, pats):
         return z3.ForAll(vs, body)
 
 
+CALLABLE_CLS = z3.Function("callable_cls", I, B)
 IT_N = z3.Function("it_n", Val, I)
 IT_ARR = z3.Function("it_arr", Val, ArrIV)
 
@@ -180,6 +181,8 @@ class Models:
             if name == "args":
                 return [Res("ok", st, PExcArgs(obj.args))]
             raise Unsupported("exception attribute %s" % name)
+        if isinstance(obj, PClassDict):
+            return [Res("ok", st, PMeth(obj, name))]
         if isinstance(obj, (PInstDict, PTuple, PKwargs, PView)):
             return [Res("ok", st, PMeth(obj, name))]
         if isinstance(obj, PSuper):
@@ -1163,6 +1166,11 @@ class Models:
             r = h(eng, st, recv, pos, kw, fx)
             if r is not None:
                 return r
+        if isinstance(recv, PClassDict) and name == "get" and pos:
+            key = eng.to_val(st, pos[0])
+            v = z3.Select(st.get("cdict", recv.cid), s_of(key))
+            dflt = eng.to_val(st, pos[1]) if len(pos) > 1 else NONE
+            return [Res("ok", st, z3.If(is_absent(v), dflt, v))]
         if isinstance(recv, PInstDict):
             return self.instdict_method(eng, st, recv, name, pos, kw, fx)
         if isinstance(recv, PKwargs):
@@ -1659,6 +1667,13 @@ class Models:
         x = pos[0]
         if isinstance(x, (PFunc, PBound, PBuiltin, PClass, PPartial)):
             return [Res("ok", st, vbool(z3.BoolVal(True)))]
+        if is_val(x):
+            # callable(x) of an arbitrary value: classes, functions and methods are; None, numbers, strings are not; for other
+            # objects it is a property of the object's class (uninterpreted)
+            c = st.get("cls_of", a_of(x))
+            FN, MT = CLS.cid("function"), CLS.cid("method")
+            return [Res("ok", st, vbool(z3.If(is_cls(x), z3.Not(z3.Or(*[c_of(x) == CLS.cid(sn) for sn in SENTINELS])),
+                                              z3.If(is_ref(x), z3.Or(c == FN, c == MT, CALLABLE_CLS(c)), False))))]
         raise Unsupported("callable() of a symbolic value")
 
     def bi_object___new__(self, eng, st, pos, kw, fx):
